@@ -435,7 +435,7 @@ pub fn ip_csum_fold(running: u32) -> u16 {
 }
 
 pub fn ip_csum_partial(buf: &[u8]) -> u32 {
-    let mut sum: u32 = 0;
+    let mut sum: u64 = 0;
 
     let it = buf.chunks_exact(2);
     let remainder = it.remainder();
@@ -449,14 +449,20 @@ pub fn ip_csum_partial(buf: &[u8]) -> u32 {
         tmp.copy_from_slice(chunk);
 
         let val = u16::from_be_bytes(tmp);
-        sum += val as u32;
+        sum += val as u64;
     }
 
     if !remainder.is_empty() {
-        sum += (remainder[0] as u32) << 8;
+        sum += (remainder[0] as u64) << 8;
     }
 
-    sum
+    /* fold the carries back in (end-around carry), so that neither long buffers nor the addition of
+     * several partial sums can overflow */
+    while (sum >> 16) != 0 {
+        sum = (sum & 0xffff) + (sum >> 16);
+    }
+
+    sum as u32
 }
 
 pub fn ip_csum(buf: &[u8]) -> u16 {
